@@ -13,6 +13,14 @@ EXTENDS Integers, Sequences, FiniteSets
 \* among them (element / member assignment are syntax, see Heap.tla)
 MutatorFns == {"append", "append_all", "insert_at", "delete_at", "remove", "put"}
 
+\* "element and member assignment" as the sweep writes them (@1 is the target,
+\* the other places are the index / key and what is stored); the compound
+\* forms are element assignments too (`x[i] += v` is `x[i] = x[i] + v`, with
+\* a default: `x[k, d] += v` is `x[k] = x[k, d] + v`)
+MutatorForms == {"operator @1[@2] = @3", "operator @1->m = @2", "operator @1->zz = @2",
+                 "operator @1[@2] += @3", "operator @1[@2, @3] += @3", "operator @1->m += @2"}
+Mutators == MutatorFns \cup MutatorForms
+
 \* "change exactly the targeted container and nothing else" / "never modify
 \* the values passed to them": between two observations `pre` and `post` of
 \* an indexed family of values only the positions in `allowed` may differ
@@ -23,7 +31,7 @@ OnlyChanged(pre, post, allowed) ==
 \* the positions a call `fn(args...)` may change: the FIRST argument of a
 \* documented mutator, nothing otherwise
 MayChange(fn, args) ==
-  IF fn \in MutatorFns /\ Len(args) >= 1 THEN {args[1]} ELSE {}
+  IF fn \in Mutators /\ Len(args) >= 1 THEN {args[1]} ELSE {}
 
 \* "values produced by non-mutating operations are independent of their
 \*  inputs": what a call returns is a new value; it neither IS one of the
@@ -47,19 +55,29 @@ MayChange(fn, args) ==
 \* argument is not: copies are shallow, see Heap.tla.)
 SelectorFns == {"identity", "if_null", "if_empty", "if_null_or_empty", "non_empty", "non_zero",
                 "min", "max", "map_get", "map_get_pattern", "div0",
-                "operator @1 !> identity()", "operator (fn(x, y) x)(@1, @2)"}
+                "operator @1 !> identity()", "operator (fn(x, y) x)(@1, @2)",
+                \* syntax that hands one of its operands on: the default of a read with a default,
+                \* the default of a parameter, return, the last expression of a block, a branch of if
+                "operator @1[@2, @3]", "operator (fn(a, b = @2) b)(@1)", "operator (fn(a) do if a == a then return a; 1 end)(@1)",
+                "operator do @1; @2 end", "operator if @1 == @2 then @1 else @2",
+                "operator do @1 finally @2 end",
+                \* a method handing back what the constructor stored in the instance
+                "operator do def class K do def _init_(self, x) do self->x = x; end; def g(self, y) self->x; end; new(K, @1)->g(@2) end"}
 EchoFns     == {"esc", "replace", "basename", "strip_extension"}
 HolderFns   == {"add", "substitute", "new",
                 "operator @1 + @2", "operator [@1, @2]", "operator <<<@1 => @2>>>",
                 "operator [...@1, @2]", "operator [...@1, ...@2]", "operator [@2, ...@1, @3]",
-                "operator (fn(args...) args)(@1, @2)"}
+                "operator (fn(args...) args...)(@1, @2)",
+                "operator <<@1, @2>>", "operator <*m = @1, n = @2*>", "operator [@1 for e in @2]",
+                "operator <<<e => @2 for e in @1>>>", "operator [[x, @3] for x in @1 also for y in @2]",
+                "operator (fn(q) do q += @2; q end)(@1)"}
 
 \* is / holds: the pool positions (among the arguments) whose container the
 \* result is / reaches below its top level
 ResultIndependent(fn, args, is, holds) ==
   /\ is # {} => \/ fn \in SelectorFns \cup EchoFns
-                \/ fn \in MutatorFns /\ Len(args) >= 1 /\ is = {args[1]}
-  /\ holds # {} => fn \in HolderFns \cup MutatorFns
+                \/ fn \in Mutators /\ Len(args) >= 1 /\ is = {args[1]}
+  /\ holds # {} => fn \in HolderFns \cup Mutators
 
 -----------------------------------------------------------------------------
 (* Cells and containers.  Every field is uniformly typed: a cell is a record
